@@ -8,6 +8,7 @@ from ..rules import escape, partial, guards
 from ..rules.directives import run_directive, unwrap
 from ..rules.world import STATE, DOT, Shapes, eager_interp, metacommand
 from . import c14, c15, c13, c01, c11
+from . import c03
 
 EXPLANATION = (
     "Decided: which exceptions can escape to the catch-all of main_cli from explicit raise/assert sites and from an "
@@ -178,3 +179,4 @@ def run(ck):
     ck.run_rule("P11", "chr() of operand values: ValueError and OverflowError are reported", 1, partial.rule_P11)
     ck.run_rule("P12", "multipliers / ranges / exponents taken from operands are bounded", 3, partial.rule_P12)
     ck.run_rule("C11.R5", "'.extern all' leaves a usable location (P7)", 4, c11.rule_R5)
+    ck.run_rule("C03.R6", "operators applied to not-yet-known operands defer and later evaluate without raising", 9, c03.rule_R6)
